@@ -530,6 +530,42 @@ func c15(args []string) {
 	cw.Wait()
 	<-done
 
+	// D2: the same stream to three consumers that all look (each keeps its messages until the stream has ended): what a
+	// consumer sees does not depend on its position in the list or on how many others there are
+	{
+		chs := []chan handler.Message{make(chan handler.Message, 2), make(chan handler.Message), make(chan handler.Message, 64)}
+		ac3 := appcore.New(&jsonconfig.Config{}, chs)
+		done3 := make(chan struct{})
+		go func() {
+			ac3.HandleMessagesUntilEOF(start, bufio.NewReader(bytes.NewReader(stream)))
+			for _, c := range chs {
+				close(c)
+			}
+			close(done3)
+		}()
+		var w3 sync.WaitGroup
+		for pos := range chs {
+			w3.Add(1)
+			go func(pos int) {
+				defer w3.Done()
+				var held []handler.Message
+				for m := range chs[pos] {
+					held = append(held, m)
+				}
+				for k := range held {
+					if k < len(idx) {
+						emit(observe(&held[k], key(idx[k], slog.LevelDebug), fmt.Sprintf("fanout-consumer-%d-of-3", pos+1)))
+					}
+				}
+				if len(held) != len(idx) {
+					emit(c15Event{Key: "fanout-count", Text: fmt.Sprint(len(held)), Dec: fmt.Sprint(len(idx)), RawSame: false, Scenario: "fanout"})
+				}
+			}(pos)
+		}
+		w3.Wait()
+		<-done3
+	}
+
 	// E: two handlers framing two different streams at the same time (two serial ports in one program): each gets its own
 	// bytes, whole, in order - nothing of the framing machinery is shared between handlers
 	var streamB []byte
